@@ -44,7 +44,17 @@ RULE = ("part 'memory': 2-4 threads run short op lists (write with the thread's 
         "sits in a lock acquire; afterwards the same final-state oracle (pairing by writer tag, nothing lost or duplicated unless reset() was called, "
         "traceback list consistent with messages and flush results, serialize() aligned). part 'pipestress': one FileDestination on the write end of "
         "an OS pipe (buffered with lines several times the pipe's capacity; unbuffered with lines below PIPE_BUF), 3-5 threads, the reader starts "
-        "draining in small pieces once the pipe is full: every line read is one complete message with its own padding, each (thread, seq) exactly once, per-thread order kept")
+        "draining in small pieces once the pipe is full: every line read is one complete message with its own padding, each (thread, seq) exactly once, per-thread order kept. "
+        "part 'twologgers': two MemoryLoggers A and B in one schedule; a field serializer of a message written to A (or A's json_default) itself logs a message or a "
+        "traceback to B while 1-2 other threads call B.write / write_traceback(B) / B.reset / B.flush_tracebacks / B.serialize / B.validate (and A); all "
+        "1-preemption schedules for every priority order plus sampled 2-3-preemption ones; the invariant is evaluated at every release of EITHER logger's "
+        "lock and the final-state oracle (pairing by writer tag, nothing lost or duplicated unless that logger was reset, traceback list consistent, "
+        "serialize() aligned, no call raised) is applied to both loggers. part 'sigwait' (real OS threads, real locks, real signals; the forked child's "
+        "main thread): a worker thread is parked inside write() / validate() / serialize() by a serializer waiting for an event, the main thread calls "
+        "another method of the same logger and waits, a signal whose handler raises (SIGALRM from setitimer -> an application exception; SIGINT from "
+        "pthread_kill or os.kill -> KeyboardInterrupt) arrives 50 ms later, the application catches it, a third thread calls the logger, then the worker "
+        "is let go: no call other than the interrupted one raises, the final-state oracle holds, and when the interrupted call was a write() the third "
+        "thread's write() does not take effect before the worker has left (scenarios in which the signal did not find the main thread waiting for the lock are counted, not judged)")
 ASSUMPTIONS = ["switch points are statement boundaries and blocking primitives (CPython granularity)"]
 EXHAUSTIVE_NOTE = "all one-preemption schedules (every priority order x every statement boundary) of each generated op list"
 CASE_TIMEOUT = 900
@@ -66,6 +76,8 @@ def plan(tier, seed):
     nraw = 4 if tier == "quick" else 11
     specs += [{"part": "rawthreads", "seed": seed, "i": j, "tier": tier, "chunk": j, "nchunks": nraw} for j in range(nraw)]
     specs += [{"part": "pipestress", "seed": seed, "i": i, "tier": tier} for i in range(3 if tier == "quick" else 9)]
+    specs += [{"part": "twologgers", "seed": seed, "i": i, "tier": tier} for i in range(6 if tier == "quick" else 40)]
+    specs += [{"part": "sigwait", "seed": seed, "i": i, "tier": tier} for i in range(3 if tier == "quick" else 12)]
     return specs
 
 
@@ -1172,6 +1184,541 @@ def run_pipestress(spec, res):
                 return
 
 
+# --------------------------------------------------------------------------- two loggers, one logging from inside the other
+
+
+def make_tagged_serializer(tag, before_seq=None):
+    """Serializer of the messages stamped `tag` (message type 'w<tag>'): fields seq and b come out as 't<tag>:<value>'. With
+    before_seq the serializer of field seq first calls it (a serializer that itself logs)."""
+    def ser_seq(v):
+        if before_seq is not None:
+            before_seq()
+        return "t%d:%s" % (tag, v)
+    mt = MessageType("w%d" % tag, [Field("seq", ser_seq, ""), Field("b", (lambda v: "t%d:%s" % (tag, v)), ""), Field.for_types("tag", [int], "")], "")
+    return mt._serializer
+
+
+def _seq_of(m):
+    q = m["seq"]
+    if isinstance(q, str):  # serialized in place by validate()
+        q = int(q.rsplit(":", 1)[1])
+    return q
+
+
+def judge_logger(name, logger, expected_ser, wrote, tbs_written, results, reset_used, problems):
+    """Final state of one MemoryLogger after all threads ended. expected_ser(message) -> the serializer object that message was
+    written with; wrote: {tag: [seq, ...]} in the order the write() calls returned; results: [("serialize"|"flush", result)]."""
+    msgs, ss = logger.messages, logger.serializers
+    tb_ser = eliot._traceback.TRACEBACK_MESSAGE._serializer
+    if len(msgs) != len(ss):
+        problems.append("%s: finally %d messages but %d serializers" % (name, len(msgs), len(ss)))
+    if len(set(id(m) for m in msgs)) != len(msgs):
+        problems.append("%s: a message is recorded twice" % name)
+    per = {}
+    tb_in_msgs = []
+    for i, (m, s_) in enumerate(zip(msgs, ss)):
+        if "tag" in m:
+            if s_ is not expected_ser(m):
+                problems.append("%s: messages[%d] (writer tag %s) is paired with %s, not with the serializer it was written with" % (
+                    name, i, m["tag"], "the traceback serializer" if s_ is tb_ser else "no serializer" if s_ is None else "another message's serializer"))
+                break
+            per.setdefault(m["tag"], []).append(_seq_of(m))
+        else:
+            tb_in_msgs.append(id(m))
+            if s_ is not tb_ser:
+                problems.append("%s: messages[%d] is a traceback message paired with %s" % (name, i, "no serializer" if s_ is None else "a writer's serializer"))
+                break
+    for tag in sorted(set(wrote) | set(per)):
+        w, got = wrote.get(tag, []), per.get(tag, [])
+        if reset_used:
+            if got and got != w[len(w) - len(got):]:
+                problems.append("%s: writer %s wrote %s, logger retains %s (not a suffix: lost, duplicated or re-ordered)" % (name, tag, w, got))
+        elif got != w:
+            problems.append("%s: writer %s wrote %s and nobody called reset(), logger retains %s" % (name, tag, w, got))
+    listed = [id(m) for m in logger.tracebackMessages]
+    flushed = [id(m) for kind, r in results if kind == "flush" for m in r]
+    if len(set(listed)) != len(listed):
+        problems.append("%s: a traceback is listed twice in tracebackMessages" % name)
+    if not set(listed) <= set(tb_in_msgs):
+        problems.append("%s: finally a tracebackMessages entry is not in messages" % name)
+    if len(set(flushed)) != len(flushed):
+        problems.append("%s: a traceback message was returned by two flush_tracebacks calls" % name)
+    if set(flushed) & set(listed):
+        problems.append("%s: a flushed traceback is still listed as unflushed" % name)
+    if not reset_used:
+        if len(tb_in_msgs) != tbs_written:
+            problems.append("%s: %d tracebacks written and nobody called reset(), %d in messages" % (name, tbs_written, len(tb_in_msgs)))
+        if set(listed) | set(flushed) != set(tb_in_msgs):
+            problems.append("%s: %d traceback messages recorded, nobody called reset(), but only %d are listed as unflushed or were returned by "
+                            "flush_tracebacks" % (name, len(tb_in_msgs), len(set(listed) | set(flushed))))
+    for kind, r in results:
+        if kind != "serialize":
+            continue
+        for d in r:
+            if "tag" not in d or "untyped" in d:
+                continue
+            pre = "t%d:" % d["tag"]
+            if not str(d["seq"]).startswith(pre) or d["message_type"] != "w%d" % d["tag"]:
+                problems.append("%s: serialize() applied the wrong serializer: %r" % (name, {k_: d.get(k_) for k_ in ("tag", "seq", "b", "message_type")}))
+                break
+            if str(d["seq"]).count(pre) != str(d.get("b")).count(pre):
+                problems.append("%s: serialize() returned a torn message (fields serialized a different number of times): %r" % (
+                    name, {k_: d.get(k_) for k_ in ("tag", "seq", "b")}))
+                break
+
+
+NEST, UNTYPED = 50, 70  # tag offsets: messages whose serializer logs to the other logger / untyped messages encoded through json_default
+
+
+def two_run(plan_, cfg):
+    """Loggers A and B. 'A.write_nest' writes to A a message whose field serializer (carrier 'field') or whose logger's json_default
+    (carrier 'json_default') itself logs to B - a plain write or a write_traceback, stamped with the calling thread's tag - while
+    the other threads call B (and A). Locks are only ever taken in the order A, B: nothing that runs under B's lock logs to A."""
+    oplists = cfg["ops"]
+    nthreads = len(oplists)
+    nested_kind, carrier = cfg["nested"], cfg["carrier"]
+    tl = threading.local()
+    stats = {"nested": 0}
+    wrote = {"A": {}, "B": {}}
+    seqs = {}
+    tbs = {"A": 0, "B": 0}
+    results = {"A": [], "B": []}
+
+    def plain_write(L, lg, t):
+        q = seqs.get((L, t), 0)
+        seqs[(L, t)] = q + 1
+        m = {"tag": t, "seq": q, "b": q, "message_type": "w%d" % t, "task_uuid": "u", "task_level": [1], "timestamp": 1.0}
+        lg.write(m, sers[t])
+        wrote[L].setdefault(t, []).append(q)
+
+    def log_tb(L, lg, t):
+        try:
+            raise Flushable("t%d" % t)
+        except Flushable:
+            write_traceback(lg)
+        tbs[L] += 1
+
+    def nested_log():
+        t = tl.t
+        if nested_kind == "write":
+            plain_write("B", B, t)
+        else:
+            log_tb("B", B, t)
+        stats["nested"] += 1
+
+    def jd(o):
+        if isinstance(o, Wrapped):
+            nested_log()
+            return {"wrapped": o.v}
+        raise TypeError("not JSON serializable: %r" % (type(o),))
+
+    sers = {t: make_tagged_serializer(t) for t in range(nthreads)}
+    nest = {t: make_tagged_serializer(NEST + t, nested_log) for t in range(nthreads)}
+    by_tag = dict(sers)
+    by_tag.update({NEST + t: s_ for t, s_ in nest.items()})
+    A = MemoryLogger(json_default=jd) if carrier == "json_default" else MemoryLogger()
+    B = MemoryLogger()
+    loggers = {"A": A, "B": B}
+
+    def expected_ser(m):
+        return None if "untyped" in m else by_tag.get(m["tag"])
+
+    hook_problems = []
+    hook_hits = {"A": 0, "B": 0}
+
+    def hook(lock):
+        for L, lg in loggers.items():
+            if any(v is lock for v in vars(lg).values()):
+                hook_hits[L] += 1
+                if len(lg.messages) != len(lg.serializers):
+                    hook_problems.append("under logger %s's lock: %d messages but %d serializers" % (L, len(lg.messages), len(lg.serializers)))
+                ids = set(id(m) for m in lg.messages)
+                if any(id(m) not in ids for m in lg.tracebackMessages):
+                    hook_problems.append("under logger %s's lock: a tracebackMessages entry is not in messages" % L)
+
+    def do(op, t):
+        L, kind = op.split(".")
+        lg = loggers[L]
+        if kind == "write":
+            plain_write(L, lg, t)
+        elif kind == "write_nest":
+            if carrier == "field":
+                tag = NEST + t
+                q = seqs.get((L, tag), 0)
+                seqs[(L, tag)] = q + 1
+                m = {"tag": tag, "seq": q, "b": q, "message_type": "w%d" % tag, "task_uuid": "u", "task_level": [1], "timestamp": 1.0}
+                lg.write(m, nest[t])
+            else:
+                tag = UNTYPED + t
+                q = seqs.get((L, tag), 0)
+                seqs[(L, tag)] = q + 1
+                m = {"tag": tag, "untyped": 1, "seq": q, "b": q, "obj": Wrapped(q), "message_type": "u%d" % t, "task_uuid": "u", "task_level": [1], "timestamp": 1.0}
+                lg.write(m, None)
+            wrote[L].setdefault(tag, []).append(q)
+        elif kind == "tb":
+            log_tb(L, lg, t)
+        elif kind == "validate":
+            lg.validate()
+        elif kind == "serialize":
+            results[L].append(("serialize", lg.serialize()))
+        elif kind == "flush":
+            results[L].append(("flush", lg.flush_tracebacks(Flushable)))
+        else:
+            lg.reset()
+
+    def worker(t):
+        def run():
+            tl.t = t
+            for op in oplists[t]:
+                do(op, t)
+        return run
+
+    sched.RELEASE_HOOKS[:] = [hook]
+    try:
+        st, errs = sched.run_schedule(plan_, {"T%d" % t: worker(t) for t in range(nthreads)}, timeout=60.0)
+    finally:
+        sched.RELEASE_HOOKS[:] = []
+    problems = list(hook_problems[:3])
+    for n, e in errs.items():
+        problems.append("%s: a MemoryLogger call raised %r" % (n, e))
+    info = {"hook_hits": hook_hits, "nested": stats["nested"], "aborted": False,
+            "nester_waited_for_a_lock": any(b[1] == "lock" for b in st["blocked"])}
+    if st["deadlock"]:
+        problems.append("threads deadlocked inside the loggers: %s" % st["deadlock"])
+        return st, problems, info
+    if st["aborted"]:
+        info["aborted"] = True
+        return st, problems, info
+    for L in ("A", "B"):
+        judge_logger("logger " + L, loggers[L], expected_ser, wrote[L], tbs[L], results[L], any(op == L + ".reset" for o in oplists for op in o), problems)
+    return st, problems, info
+
+
+def run_twologgers(spec, res):
+    rng = random.Random("%s:C16:two:%d" % (spec["seed"], spec["i"]))
+    i = spec["i"]
+    nested = "tb" if i % 2 else "write"
+    carrier = "json_default" if i % 4 == 3 else "field"
+    nthreads = 3 if i % 3 == 2 else 2
+    b_validate = nested == "write" and rng.random() < 0.35
+    pool_b = ["B.write", "B.reset", "B.serialize"] if b_validate else ["B.write", "B.write", "B.tb", "B.flush", "B.reset", "B.serialize"]
+    quick = spec["tier"] == "quick"
+    t0 = ["A.write_nest"] * (1 if quick or i % 3 == 0 else rng.choice([1, 1, 2]))
+    if rng.random() < 0.5:
+        t0.insert(rng.randrange(len(t0) + 1), rng.choice(["A.serialize", "A.validate", "B.write"]))
+    t1 = [rng.choice(pool_b) for _ in range(rng.randint(1, 2 if quick else 3))]
+    if b_validate:
+        t1[rng.randrange(len(t1))] = "B.validate"
+    elif not any(o in ("B.write", "B.tb") for o in t1):
+        t1[0] = rng.choice(["B.write", "B.tb"])
+    oplists = [t0, t1]
+    if nthreads == 3:
+        pool2 = pool_b + ["A.write", "A.reset"] + ([] if "A.validate" in t0 else ["A.serialize"])
+        oplists.append([rng.choice(pool2) for _ in range(rng.randint(1, 2))])
+    if carrier == "json_default":
+        # A then holds messages written without a serializer, for which MemoryLogger.serialize() raises AttributeError in a single
+        # thread as well (nothing to do with concurrency): such runs validate() A instead, at most once
+        seen = False
+        for o in oplists:
+            for j, op in enumerate(o):
+                if op in ("A.serialize", "A.validate"):
+                    o[j] = "A.write" if seen else "A.validate"
+                    seen = True
+    cfg = {"nested": nested, "carrier": carrier, "ops": oplists}
+    names = ["T%d" % t for t in range(nthreads)]
+    c = res["counters"]
+
+    def execute(plan_, label):
+        st, problems, info = two_run(plan_, cfg)
+        res["evals"] += 1
+        c["two_logger_schedules_run"] = c.get("two_logger_schedules_run", 0) + 1
+        c["two_logger_lock_hook_entries_A"] = c.get("two_logger_lock_hook_entries_A", 0) + info["hook_hits"]["A"]
+        c["two_logger_lock_hook_entries_B"] = c.get("two_logger_lock_hook_entries_B", 0) + info["hook_hits"]["B"]
+        c["two_logger_nested_logs_to_B"] = c.get("two_logger_nested_logs_to_B", 0) + info["nested"]
+        if info["nester_waited_for_a_lock"]:
+            c["two_logger_schedules_with_a_thread_waiting_for_a_lock"] = c.get("two_logger_schedules_with_a_thread_waiting_for_a_lock", 0) + 1
+        res["sets"]["interleavings"].append(sched.trace_hash(st))
+        for nm, k, loc in st["fired"]:
+            res["sets"]["preemption_lines"].append(loc)
+        if st["fired"]:
+            res["nontrivial"].append(sched.trace_hash(st))
+        if info["aborted"]:
+            res["inconclusive"] = "schedule abandoned: %s" % st["aborted"]
+        if problems and len(res["violations"]) < 3:
+            res["violations"].append({"msg": "two loggers (a %s of a message written to A logs a %s to B): %s" % (
+                "field serializer" if carrier == "field" else "json_default", "message" if nested == "write" else "traceback", problems[0]), "mech": None,
+                "detail": {"part": "twologgers", "config": cfg, "plan": plan_, "problems": problems[:5], "label": label}})
+        return st
+
+    orders = list(itertools.permutations(names))
+    if quick and len(orders) > 2:
+        orders = rng.sample(orders, 3)
+    for order in orders:
+        base = execute({"order": list(order), "changes": []}, "baseline")
+        for p in sched.one_preemption_plans(list(order), base["events"]):
+            execute(p, "1-preemption")
+            if len(res["violations"]) >= 3:
+                return
+    for p in sched.sampled_plans(rng, names, base["events"], 30 if quick else 300):
+        execute(p, "sampled")
+        if len(res["violations"]) >= 3:
+            return
+    c["two_logger_configs_explored_exhaustively_1p"] = c.get("two_logger_configs_explored_exhaustively_1p", 0) + 1
+    if i == 0:
+        res["sample"] = {"part": "twologgers", "config": cfg, "baseline_events": base["events"]}
+
+
+# --------------------------------------------------------------------------- a waiter interrupted by a signal
+
+
+class DeadlineExpired(Exception):
+    """What an application's SIGALRM handler raises (the classic 'give up after n seconds' idiom)."""
+
+
+SIG_MODES = ["alarm", "sigint_thread", "sigint_process", "alarm"]
+SIG_WORKER_OPS = ["write", "write", "validate", "serialize"]
+SIG_MAIN_OPS = ["write", "write", "tb", "serialize", "flush", "reset", "write", "validate"]
+SIG_GRACE = 0.05  # real time between the main thread announcing its call and the signal
+
+
+def sig_scenario(worker_op, main_op, third_ops, mode):
+    """Real OS threads and real locks (no schedule is active). A worker thread is parked inside a MemoryLogger method by a field
+    serializer that waits for an event; the main thread calls another method of the same logger and has to wait; a signal whose
+    handler raises arrives while it waits; the application catches that exception; a third thread then calls the logger while the
+    worker is still parked inside; then the worker is let go. Returns (info, problems); problems is None if not judged."""
+    import signal
+    import time
+    info = {"reached": False, "why_not": None, "third_returned_while_worker_inside": False, "third_blocked_on_a_lock": False,
+            "handler_ran": False, "handler_in_lock_acquire": False, "park_timeout": False}
+    signum = signal.SIGALRM if mode == "alarm" else signal.SIGINT
+    logger = MemoryLogger()
+    W, M, T, P = 0, 1, 2, 3  # writer tags: worker, main thread, third thread, preparation
+    gate = {"armed": False}
+    inside, release = threading.Event(), threading.Event()
+
+    def park():
+        if gate["armed"]:
+            gate["armed"] = False  # only the first caller (the worker) is parked
+            inside.set()
+            release.wait(15)
+
+    sers = {t: make_tagged_serializer(t) for t in (M, T, P)}
+    sers[W] = make_tagged_serializer(W, park)
+    wrote = {}
+    seqs = {}
+    tbs = [0]
+    results = []
+    errors = []
+
+    def do(op, t):
+        if op == "write":
+            q = seqs.get(t, 0)
+            seqs[t] = q + 1
+            m = {"tag": t, "seq": q, "b": q, "message_type": "w%d" % t, "task_uuid": "u", "task_level": [1], "timestamp": 1.0}
+            logger.write(m, sers[t])
+            wrote.setdefault(t, []).append(q)
+        elif op == "tb":
+            try:
+                raise Flushable("t%d" % t)
+            except Flushable:
+                write_traceback(logger)
+            tbs[0] += 1
+        elif op == "validate":
+            logger.validate()
+        elif op == "serialize":
+            results.append(("serialize", logger.serialize()))
+        elif op == "flush":
+            results.append(("flush", logger.flush_tracebacks(Flushable)))
+        else:
+            logger.reset()
+
+    def handler(sig, frame):
+        info["handler_ran"] = True
+        info["handler_in_lock_acquire"] = frame is not None and _blocked_on_a_lock(frame)
+        if sig == signal.SIGINT:
+            signal.default_int_handler(sig, frame)  # raises KeyboardInterrupt, as Ctrl-C does
+        raise DeadlineExpired("alarm")
+
+    # quiet preparation by the main thread
+    plain = "validate" in (worker_op, main_op)  # validate() serializes in place: no traceback messages then (see run_memory)
+    for op in (["write", "write"] if plain else ["write", "tb", "write"]):
+        do(op, P)
+    if worker_op != "write":
+        do("write", W)  # the stored message whose serializer will park the worker inside validate() / serialize()
+    gate["armed"] = True
+
+    def thread_body(ops, t):
+        def run():
+            signal.pthread_sigmask(signal.SIG_BLOCK, {signal.SIGALRM, signal.SIGINT})  # signals are the main thread's business
+            for op in ops:
+                try:
+                    do(op, t)
+                except BaseException as e:
+                    errors.append("%s thread: its %s() call raised %r" % ("worker" if t == W else "third", op, e))
+        return run
+
+    old = signal.signal(signum, handler)
+    worker = sched._real_Thread(target=thread_body([worker_op], W), daemon=True)
+    third = sched._real_Thread(target=thread_body(third_ops, T), daemon=True)
+    helper = None
+    interrupted = None
+    try:
+        worker.start()
+        if not inside.wait(10):
+            info["why_not"] = "the worker never reached its serializer"
+            release.set()
+            worker.join(30)
+            return info, None
+        about, cancel = threading.Event(), threading.Event()
+        if mode != "alarm":
+            main_ident = threading.main_thread().ident
+            pid = os.getpid()
+
+            def send():
+                signal.pthread_sigmask(signal.SIG_BLOCK, {signal.SIGALRM, signal.SIGINT})
+                about.wait(10)
+                if cancel.wait(SIG_GRACE):
+                    return
+                if mode == "sigint_thread":
+                    signal.pthread_kill(main_ident, signal.SIGINT)
+                else:
+                    os.kill(pid, signal.SIGINT)
+            helper = sched._real_Thread(target=send, daemon=True)
+            helper.start()
+        try:
+            try:
+                if mode == "alarm":
+                    signal.setitimer(signal.ITIMER_REAL, SIG_GRACE)
+                about.set()
+                do(main_op, M)  # has to wait for the worker; the handler's exception comes out of this call
+            finally:
+                signal.setitimer(signal.ITIMER_REAL, 0)
+                cancel.set()
+                if helper is not None:
+                    helper.join(10)
+                    for _ in range(20):  # a signal sent a moment ago is handled here, not later
+                        if info["handler_ran"]:
+                            break
+                        time.sleep(0.001)
+        except (KeyboardInterrupt, DeadlineExpired) as e:
+            interrupted = e  # the application handles it and carries on
+        signal.signal(signum, signal.SIG_IGN if signum == signal.SIGINT else (lambda *a: None))
+        if interrupted is None:
+            info["why_not"] = "the main thread's call was not interrupted (it did not have to wait)"
+        elif not info["handler_in_lock_acquire"]:
+            info["why_not"] = "the signal arrived before the main thread was waiting for the lock"
+        else:
+            info["reached"] = True
+        if not info["reached"]:
+            release.set()
+            worker.join(30)
+            return info, None
+        # the third thread calls the logger while the worker is still inside
+        third.start()
+        deadline = time.monotonic() + 2.0
+        stuck = 0
+        while True:
+            if not third.is_alive():
+                info["third_returned_while_worker_inside"] = True
+                break
+            fr = sys._current_frames().get(third.ident)
+            stuck = stuck + 1 if (fr is not None and _blocked_on_a_lock(fr)) else 0
+            del fr
+            if stuck >= 3:
+                info["third_blocked_on_a_lock"] = True
+                break
+            if time.monotonic() > deadline:
+                info["park_timeout"] = True
+                break
+            time.sleep(0.0005)
+        worker_inside = worker.is_alive() and not release.is_set()
+        release.set()
+        worker.join(30)
+        third.join(30)
+        if worker.is_alive() or third.is_alive():
+            info["why_not"] = "a thread did not come back"
+            info["reached"] = False
+            return info, None
+    finally:
+        release.set()
+        signal.setitimer(signal.ITIMER_REAL, 0)
+        signal.signal(signum, old)
+    problems = list(errors)
+    what = "after the main thread's %s() on the same logger was interrupted by a signal (%s) while it waited for the worker inside %s()" % (
+        main_op, type(interrupted).__name__, worker_op)
+    problems = [p_ + " " + what for p_ in problems]
+    if main_op == "write" and third_ops[0] == "write" and worker_inside and info["third_returned_while_worker_inside"]:
+        # the main thread's identical call had to wait for the worker a moment earlier
+        problems.append("the third thread's write() took effect while the worker thread was still inside %s(), although the main thread's write() "
+                        "had to wait for it: the logger was open to other threads %s" % (worker_op, what))
+    if worker_op == "write" and main_op == "write" and third_ops[0] == "write" and len(logger.messages) == len(logger.serializers):
+        pos = {}
+        for i_, m in enumerate(logger.messages):
+            if m.get("tag") in (W, T):
+                pos.setdefault(m["tag"], i_)
+        if W in pos and T in pos and pos[T] < pos[W]:
+            problems.append("the third thread's message (written while the worker was inside write()) is recorded before the worker's message " + what)
+    # quiet again
+    try:
+        do("write", M)
+        results.append(("serialize", logger.serialize()))
+        if not plain:
+            results.append(("flush", logger.flush_tracebacks(Flushable)))
+    except BaseException as e:
+        problems.append("after the threads ended a MemoryLogger call raised %r" % (e,))
+    reset_used = main_op == "reset" or "reset" in third_ops  # (whether an interrupted reset() took effect is not judged)
+    judge_logger("logger", logger, lambda m: sers.get(m["tag"]), wrote, tbs[0], results, reset_used, problems)
+    return info, problems
+
+
+def run_sigwait(spec, res):
+    import signal
+    c = res["counters"]
+    if threading.current_thread() is not threading.main_thread() or not hasattr(signal, "setitimer") or not hasattr(signal, "pthread_kill"):
+        res["inconclusive"] = "sigwait: the case does not run in the main thread of its process (signals cannot be handled here)"
+        return
+    if sched.ACTIVE is not None:
+        res["inconclusive"] = "sigwait: a schedule is active"
+        return
+    rng = random.Random("%s:C16:sig:%d" % (spec["seed"], spec["i"]))
+    n = 16 if spec["tier"] == "quick" else 40
+    for j in range(n):
+        k = spec["i"] * n + j
+        worker_op = SIG_WORKER_OPS[k % len(SIG_WORKER_OPS)]
+        main_op = SIG_MAIN_OPS[(k // 2 + rng.randrange(2)) % len(SIG_MAIN_OPS)]
+        if main_op == "validate" and worker_op == "validate":
+            main_op = "write"
+        plain = "validate" in (worker_op, main_op)
+        third_ops = ["write"] + ([] if rng.random() < 0.5 else [rng.choice(["write", "serialize"] if plain else ["write", "tb", "serialize", "flush"])])
+        mode = SIG_MODES[(k + k // len(SIG_MODES)) % len(SIG_MODES)]
+        info, problems = sig_scenario(worker_op, main_op, third_ops, mode)
+        res["evals"] += 1
+        c["signal_scenarios_run"] = c.get("signal_scenarios_run", 0) + 1
+        if not info["reached"]:
+            key = "signal_scenarios_not_reached"
+            c.setdefault(key, {})
+            c[key][info["why_not"] or "?"] = c[key].get(info["why_not"] or "?", 0) + 1
+            if info["why_not"] == "a thread did not come back":
+                res["inconclusive"] = "sigwait: a thread did not come back"
+                return
+            continue
+        c["signal_scenarios_main_thread_interrupted_while_waiting_for_the_lock"] = c.get("signal_scenarios_main_thread_interrupted_while_waiting_for_the_lock", 0) + 1
+        for key in ("third_returned_while_worker_inside", "third_blocked_on_a_lock", "park_timeout"):
+            if info[key]:
+                c["signal_scenarios_" + key] = c.get("signal_scenarios_" + key, 0) + 1
+        c.setdefault("signal_modes_reached", {})
+        c["signal_modes_reached"][mode] = c["signal_modes_reached"].get(mode, 0) + 1
+        res["nontrivial"].append(h(["sig", worker_op, main_op, third_ops, mode]))
+        if problems and len(res["violations"]) < 3:
+            res["violations"].append({"msg": "interrupted waiter: " + problems[0], "mech": None,
+                                      "detail": {"part": "sigwait", "worker_op": worker_op, "main_op": main_op, "third_ops": third_ops, "signal": mode,
+                                                 "info": info, "problems": problems[:5]}})
+            if len(res["violations"]) >= 3:
+                return
+    if spec["i"] == 0:
+        res["sample"] = {"part": "sigwait", "example": {"worker_inside": worker_op, "main_thread_calls": main_op, "third_thread": third_ops, "signal": mode}}
+
+
 def run_case(spec):
     res = {"evals": 0, "nontrivial": [], "counters": {}, "violations": [], "sample": None, "sets": {"interleavings": [], "preemption_lines": []}}
     if spec["part"] == "filestress":
@@ -1187,8 +1734,13 @@ def run_case(spec):
         sched.instrument([_output])
         run_twodefaults(spec, res)
         return res
+    if spec["part"] == "sigwait":
+        run_sigwait(spec, res)  # real threads, real locks, real signals
+        return res
     from eliot import _validation
-    n = sched.instrument([_output, _validation] if spec["part"] in ("memory", "memory2p", "loggersched", "lockorder") else [_output])
+    # 'twologgers': every third case has LINE events in _validation.py too (the nested logging multiplies the events per schedule)
+    both = spec["part"] in ("memory", "memory2p", "loggersched", "lockorder") or (spec["part"] == "twologgers" and spec["i"] % 3 == 0)
+    n = sched.instrument([_output, _validation] if both else [_output])
     res["counters"]["code_objects_instrumented"] = n
     if spec["part"] == "memory2p":
         run_memory2p(spec, res)
@@ -1198,6 +1750,8 @@ def run_case(spec):
         run_loggersched(spec, res)
     elif spec["part"] == "lockorder":
         run_lockorder(spec, res)
+    elif spec["part"] == "twologgers":
+        run_twologgers(spec, res)
     else:
         run_filesched(spec, res)
     return res
@@ -1216,4 +1770,8 @@ def finalize(agg, tier):
         return "no raw (non-threading) thread was parked inside a MemoryLogger method while another one called the logger"
     if c.get("pipe_rounds_with_writers_blocked_on_a_full_pipe", 0) == 0:
         return "no round in which the threads writing to a pipe had to wait for the reader"
+    if c.get("two_logger_schedules_run", 0) == 0 or c.get("two_logger_nested_logs_to_B", 0) == 0 or c.get("two_logger_lock_hook_entries_B", 0) == 0:
+        return "no schedule in which a serializer of a message written to one MemoryLogger logged to a second one"
+    if c.get("signal_scenarios_main_thread_interrupted_while_waiting_for_the_lock", 0) == 0:
+        return "no scenario in which a signal interrupted the main thread while it waited for a thread inside a MemoryLogger method"
     return None
